@@ -13,9 +13,12 @@ def _opt(modname, attr):
 
 
 def all_gens():
+    """every family's command generator; programs mix families over one key alphabet, so every command also meets keys of other types"""
     gens = [(3, execgen.string_cmd)]
-    for mod, attr in (("execgen_list", "list_cmd"), ("execgen_hash", "hash_cmd"), ("execgen_set", "set_cmd"),
-                      ("execgen_zset", "zset_cmd"), ("execgen_stream", "stream_cmd")):
+    lg = _opt("execgen_list", "ListGen")
+    if lg:
+        gens.append((2, lg()))
+    for mod, attr in (("execgen_hash", "hash_cmd"), ("execgen_set", "set_cmd"), ("execgen_zset", "zset_cmd"), ("execgen_stream", "stream_cmd")):
         g = _opt(mod, attr)
         if g:
             gens.append((2, g))
@@ -24,7 +27,21 @@ def all_gens():
 
 def multikey_cmd(rng, keys):
     k = [rng.choice(keys) for _ in range(4)]
-    c = rng.choice(["mset", "mset", "rename", "mget", "del", "exists", "mset"])
+    c = rng.choice(["mset", "mset", "rename", "mget", "del", "exists", "mset", "lmove", "smove", "sstore", "salg", "blpop", "rpush", "sadd"])
+    if c == "lmove":
+        return [b"LMOVE", k[0], k[1], rng.choice([b"LEFT", b"RIGHT"]), rng.choice([b"LEFT", b"RIGHT"])], k[:2]
+    if c == "smove":
+        return [b"SMOVE", k[0], k[1], rng.choice([b"a", b"b", b"c"])], k[:2]
+    if c == "sstore":
+        return [rng.choice([b"SUNIONSTORE", b"SINTERSTORE", b"SDIFFSTORE"]), k[0], k[1], k[2]], k[:3]
+    if c == "salg":
+        return [rng.choice([b"SUNION", b"SINTER", b"SDIFF"]), k[0], k[1], k[2]], k[:3]
+    if c == "blpop":
+        return [rng.choice([b"BLPOP", b"BRPOP"]), k[0], k[1], b"0.05"], k[:2]
+    if c == "rpush":
+        return [b"RPUSH", k[0], b"x", b"y"], k[:1]
+    if c == "sadd":
+        return [b"SADD", k[0], b"a", b"b"], k[:1]
     v = rng.choice(execgen.VALS)
     if c == "mset":
         n = rng.randint(1, 3)
@@ -42,17 +59,12 @@ def multikey_cmd(rng, keys):
 
 
 def multikey_gens():
-    gens = [(3, multikey_cmd), (1, execgen.string_cmd)]
-    for mod, attr in (("execgen_list", "list_multikey_cmd"), ("execgen_set", "set_multikey_cmd")):
-        g = _opt(mod, attr)
-        if g:
-            gens.append((2, g))
-    return gens
+    return [(3, multikey_cmd), (1, execgen.string_cmd)]
 
 
 def conc_scenarios():
     sc = ["counter", "register", "setnx"]
-    if _opt("execgen_list", "list_cmd"):
+    if _opt("execgen_list", "ListGen"):
         sc.append("queue")
     if _opt("execgen_set", "set_cmd"):
         sc.append("set")
